@@ -37,7 +37,7 @@ def _macro_callsites(ts, t, macro_name):
     return out
 
 
-def rule_ambient_j2(ctx, ts):
+def rule_ambient_j2(ctx, ts, px=None):
     R = "R-C07-AMBIENT-J2"
     ctx.rule(
         R,
@@ -47,6 +47,20 @@ def rule_ambient_j2(ctx, ts):
     )
     N = ts.nodes
     n_taint = 0
+    # templates rendered with a Namespace as `T`: Namespace.j2 of each language and whatever it pulls in
+    ns_templates = set()
+    for t0 in ts.templates:
+        if t0.name == "Namespace.j2":
+            work = [t0]
+            while work:
+                cur = work.pop()
+                if id(cur) in ns_templates:
+                    continue
+                ns_templates.add(id(cur))
+                for ref in list(cur.ast.find_all(N.Include)) + list(cur.ast.find_all(N.Import)) + list(cur.ast.find_all(N.FromImport)) + list(cur.ast.find_all(N.Extends)):
+                    tn = getattr(ref, "template", None)
+                    if isinstance(tn, N.Const) and isinstance(tn.value, str):
+                        work.extend(x for x in ts.templates if x.lang == cur.lang and x.kind == cur.kind and x.name == tn.value)
     for t in ts.templates:
         aliases = _audit_aliases(ts, t)
         safe_wrapped = set()
@@ -58,6 +72,18 @@ def rule_ambient_j2(ctx, ts):
                     inner = inner.node
                 if isinstance(inner, N.Getattr) and inner.attr == "source_file_path":
                     safe_wrapped.add(id(inner))
+        # a component (.name / .stem / .suffix) of a path is location independent only for a normalised path: `Path('.').name` is '',
+        # `Path('../ns').name` is the last spelled component.  pydsdl resolves the file path of every type (axiom); the folder of a
+        # Namespace object is nunavut's own value, so a template whose `T` is a namespace may print a component of it outside the
+        # auditing guard only while Namespace.__init__ stores the resolved folder.
+        if px is not None and id(t) in ns_templates:
+            for node, stack in j2front.walk(t.ast):
+                if isinstance(node, N.Getattr) and node.attr == "source_file_path" and id(node) in safe_wrapped and not _under_audit(stack, aliases):
+                    okn, whyn = _namespace_folder_normalised(px)
+                    ctx.ob(R, t.rel, f"{xs(node)} component of a namespace's folder @ {j2front.construct_path(stack)}", okn,
+                           "the folder is stored resolved" if okn else
+                           f"{whyn}: run from inside the namespace folder (`nnvg .`) the printed name is empty, with `../ns` it is whatever was typed - the "
+                           "output depends on the working directory and on how the input path was spelled", getattr(node, "lineno", None))
         for node, stack in j2front.walk(t.ast):
             taint = None
             if isinstance(node, N.Name) and node.name == "now_utc" and node.ctx == "load":
@@ -94,6 +120,18 @@ def rule_ambient_j2(ctx, ts):
                 line=getattr(node, "lineno", None),
             )
     ctx.floor(R, n_taint, 8)
+
+
+def _namespace_folder_normalised(px):
+    """Namespace.__init__ assigns self._source_folder a value that went through .resolve() / abspath / realpath"""
+    init = px.func("nunavut._namespace", "Namespace.__init__")
+    for st in ast.walk(init.node):
+        if isinstance(st, ast.Assign) and any(ast.unparse(t_) == "self._source_folder" for t_ in st.targets):
+            v = pyfront.subst_locals(init.node, st.value)
+            ok = any(isinstance(c, ast.Call) and ((isinstance(c.func, ast.Attribute) and c.func.attr in ("resolve", "absolute")) or
+                                                  effects.dotted(c.func) in ("os.path.abspath", "os.path.realpath")) for c in ast.walk(v))
+            return ok, f"Namespace.__init__ stores `{ast.unparse(v)[:80]}` as given"
+    return False, "Namespace.__init__ no longer assigns _source_folder"
 
 
 def _returned_local(fnode):
@@ -209,6 +247,19 @@ def _chk_postprocessor_cmd(site, pm, px):
 def _chk_source_folder(site, pm, px):
     st = _stmt(site, pm)
     ok = isinstance(st, ast.Assign) and ast.unparse(st.targets[0]) == "self._source_folder"
+    if not ok and isinstance(st, ast.Assign) and len(st.targets) == 1 and isinstance(st.targets[0], ast.Name):
+        # computed into a local first: every use of the local is the store into _source_folder, a test, or the argument of a raise
+        loc = st.targets[0].id
+        fpm = pyfront.parent_map(site.func.node)
+        uses = [n for n in ast.walk(site.func.node) if isinstance(n, ast.Name) and n.id == loc and isinstance(n.ctx, ast.Load)]
+        def _use_ok(u):
+            s_ = pyfront.enclosing_stmt(u, fpm)
+            if isinstance(s_, ast.Assign):
+                return [ast.unparse(t_) for t_ in s_.targets] == ["self._source_folder"] and isinstance(s_.value, ast.Name)
+            if isinstance(s_, ast.If):
+                return any(x is u for x in ast.walk(s_.test))
+            return isinstance(s_, ast.Raise)
+        ok = bool(uses) and all(_use_ok(u) for u in uses) and any(isinstance(pyfront.enclosing_stmt(u, fpm), ast.Assign) for u in uses)
     if ok:
         # _source_folder is exposed only through the source_file_path property (tainted name for R-C07-AMBIENT-J2)
         cls = site.func.cls
@@ -688,7 +739,7 @@ def run(ctx):
     ctx.unit("templates", len(ts.templates))
     ctx.unit("python_modules", len(px.modules))
     ctx.unit("python_functions", len(px.all_funcs))
-    rule_ambient_j2(ctx, ts)
+    rule_ambient_j2(ctx, ts, px)
     rule_platform_version(ctx, px)
     rule_ambient_py(ctx, px)
     rule_order(ctx, px, ts)
@@ -700,3 +751,4 @@ def run(ctx):
     # with the location of the inputs).  That order is harmless exactly while no file's text depends on what was rendered before it
     C10.rule_state(ctx, px, R="R-C07-CROSS-FILE", why="[generation order is hash order; it must not reach the text] ")
     C10.rule_context_free(ctx, px, ts, "R-C07-CROSS-FILE")
+    C10.rule_folded_load(ctx, px, ts, "R-C07-CROSS-FILE")
